@@ -630,6 +630,127 @@ def stage4c():
     return done
 
 
+# ------------------------------------------------------------------ stage 7: SevenZipDecompressor
+GEN_DECOMP_COMMON = """
+(* ---- third wave (stage 7): SevenZipDecompressor._decompress / _read_data / decompress as translated on this run from
+   py7zr/compressor.py (gen/DecompChain.v) ARE Decomp.v's run_chain / read_data / decompress: for every object state, every
+   file content, every max_length and every read-schedule element rd (the most this call's fp.read returns), with the same
+   abstract stage decoders `dstep` on both sides.  DecompGen.st_of o fp is the model state of the object o with the unread
+   file fp; DecompGen.of_st st digest delivered the object of a model state (self.digest / self._delivered are not in
+   Decomp.v's state).  The digest goes through the generated helpers.calculate_crc32 (fuel for its block loop). ---- *)
+"""
+
+C01_STAGE7 = GEN_DECOMP_COMMON + """
+Theorem C01_gen_decompress_is_model :
+  forall (stage : Type) (dstep : stage -> bytes -> Z -> stage * bytes) (zcrc32 : bytes -> Z -> Z)
+         (self : DecompChain.SevenZipDecompressor stage) (fp : bytes) (fuel : nat) (ml : Z) (rd : nat),
+  DecompChain.SevenZipDecompressor_decompress stage dstep zcrc32 self fp fuel ml rd
+  = (do r <- decompress dstep (DecompGen.st_of stage self fp) ml rd;
+     let '(st', out) := r in
+     do dg <- HelpersCrc.calculate_crc32 zcrc32 fuel out (DecompChain.SevenZipDecompressor_digest self) 1048576;
+     Ok ((DecompGen.of_st stage st' dg (DecompChain.SevenZipDecompressor__delivered self + PyPrims.py_len out), out), fp_rest st')).
+Proof. exact DecompGen.gen_decompress. Qed.
+Print Assumptions C01_gen_decompress_is_model.
+
+Theorem C01_gen_decompress_chain_is_run_chain :
+  forall (stage : Type) (dstep : stage -> bytes -> Z -> stage * bytes) (self : DecompChain.SevenZipDecompressor stage) (fp data : bytes) (ml : Z),
+  DecompChain.SevenZipDecompressor_decompress_chain stage dstep self data ml
+  = (do r <- run_chain dstep (DecompGen.st_of stage self fp) data ml;
+     let '(st', out) := r in
+     Ok (DecompGen.of_st stage st' (DecompChain.SevenZipDecompressor_digest self) (DecompChain.SevenZipDecompressor__delivered self), out)).
+Proof. intros stage dstep. exact (DecompGen.gen_decompress_chain stage dstep (fun _ v => v)). Qed.
+Print Assumptions C01_gen_decompress_chain_is_run_chain.
+
+Theorem C01_gen_read_data_is_model :
+  forall (stage : Type) (self : DecompChain.SevenZipDecompressor stage) (fp : bytes) (rd : nat),
+  DecompChain.SevenZipDecompressor_read_data stage self fp rd
+  = (let '(st1, data) := read_data (DecompGen.st_of stage self fp) rd in
+     Ok ((DecompGen.of_st stage st1 (DecompChain.SevenZipDecompressor_digest self) (DecompChain.SevenZipDecompressor__delivered self), data),
+         fp_rest st1)).
+Proof. exact DecompGen.gen_read_data. Qed.
+Print Assumptions C01_gen_read_data_is_model.
+
+(* with a zlib.crc32 obeying the two laws of Crc32.crc32_update: the model's answer is the code's answer (fuel >= len(result)),
+   and the digest is the running CRC-32 of what was returned *)
+Theorem C01_gen_decompress_accepts :
+  forall (stage : Type) (dstep : stage -> bytes -> Z -> stage * bytes) (zcrc32 : bytes -> Z -> Z),
+  (forall d v, 0 <= v < 2 ^ 32 -> 0 <= zcrc32 d v < 2 ^ 32) ->
+  (forall a b v, 0 <= v < 2 ^ 32 -> zcrc32 (a ++ b) v = zcrc32 b (zcrc32 a v)) ->
+  forall (self : DecompChain.SevenZipDecompressor stage) (fp : bytes) (fuel : nat) (ml : Z) (rd : nat) st' out,
+  0 <= DecompChain.SevenZipDecompressor_digest self < 2 ^ 32 ->
+  decompress dstep (DecompGen.st_of stage self fp) ml rd = Ok (st', out) -> (length out <= fuel)%nat ->
+  DecompChain.SevenZipDecompressor_decompress stage dstep zcrc32 self fp fuel ml rd
+  = Ok ((DecompGen.of_st stage st' (zcrc32 out (DecompChain.SevenZipDecompressor_digest self))
+           (DecompChain.SevenZipDecompressor__delivered self + PyPrims.py_len out), out), fp_rest st').
+Proof. exact DecompGen.gen_decompress_is_model. Qed.
+Print Assumptions C01_gen_decompress_accepts.
+
+(* C01_decompress_len over the code as translated *)
+Theorem C01_gen_decompress_len :
+  forall (stage : Type) (dstep : stage -> bytes -> Z -> stage * bytes) (zcrc32 : bytes -> Z -> Z)
+         (self o' : DecompChain.SevenZipDecompressor stage) fp fp' fuel ml rd out,
+  0 <= DecompChain.SevenZipDecompressor__pos self <= zlen (DecompChain.SevenZipDecompressor__buf self) ->
+  DecompChain.SevenZipDecompressor__unused self = [] -> 0 <= ml ->
+  DecompChain.SevenZipDecompressor_decompress stage dstep zcrc32 self fp fuel ml rd = Ok ((o', out), fp') ->
+  zlen out <= ml.
+Proof. exact DecompGen.gen_decompress_len. Qed.
+Print Assumptions C01_gen_decompress_len.
+"""
+
+C20_STAGE7 = GEN_DECOMP_COMMON + """
+(* every theorem of this file about `decompress dstep st ml rd = Ok (st', out)` applies to a call of the generated method that
+   returns: the model call it stands for *)
+Theorem C20_gen_decompress_is_model_call :
+  forall (stage : Type) (dstep : stage -> bytes -> Z -> stage * bytes) (zcrc32 : bytes -> Z -> Z)
+         (self o' : DecompChain.SevenZipDecompressor stage) fp fp' fuel ml rd out,
+  DecompChain.SevenZipDecompressor_decompress stage dstep zcrc32 self fp fuel ml rd = Ok ((o', out), fp') ->
+  decompress dstep (DecompGen.st_of stage self fp) ml rd = Ok (DecompGen.st_of stage o' fp', out).
+Proof. exact DecompGen.gen_decompress_ok_inv. Qed.
+Print Assumptions C20_gen_decompress_is_model_call.
+"""
+
+C05_STAGE7 = GEN_DECOMP_COMMON + """
+Theorem C05_gen_decompress_is_model_call :
+  forall (stage : Type) (dstep : stage -> bytes -> Z -> stage * bytes) (zcrc32 : bytes -> Z -> Z)
+         (self o' : DecompChain.SevenZipDecompressor stage) fp fp' fuel ml rd out,
+  DecompChain.SevenZipDecompressor_decompress stage dstep zcrc32 self fp fuel ml rd = Ok ((o', out), fp') ->
+  Decomp.decompress dstep (DecompGen.st_of stage self fp) ml rd = Ok (DecompGen.st_of stage o' fp', out).
+Proof. exact DecompGen.gen_decompress_ok_inv. Qed.
+Print Assumptions C05_gen_decompress_is_model_call.
+"""
+
+DEC_DEPS = ["SevenZipDecompressor", "SevenZipDecompressor._decompress", "SevenZipDecompressor._read_data", "SevenZipDecompressor.decompress",
+            "calculate_crc32"]
+
+
+def stage7():
+    done = []
+    add_require("coq/props/C01.v", "From P7gen Require AesBuf HelpersCrc.\n", "From P7 Require PyPrims DecompGen.\nFrom P7gen Require DecompChain.\n")
+    add_require("coq/props/C20.v", "From P7 Require Import Prelude Decomp Mem.\n", "From P7 Require DecompGen.\nFrom P7gen Require DecompChain.\n")
+    add_require("coq/props/C05.v", "Require P7.Decomp.\n", "From P7 Require DecompGen.\nFrom P7gen Require DecompChain.\n")
+    if patch("coq/props/C01.v", "C01_gen_decompress_is_model", [], C01_STAGE7):
+        done.append("props/C01.v")
+    if patch("coq/props/C20.v", "C20_gen_decompress_is_model_call", [], C20_STAGE7):
+        done.append("props/C20.v")
+    if patch("coq/props/C05.v", "C05_gen_decompress_is_model_call", [], C05_STAGE7):
+        done.append("props/C05.v")
+    # validation: a part of c01.py's correspondence loop; a small sample at the start of c20.py / c05.py
+    if patch("tools/harness/c01.py", "decgen.check_decompress",
+             [("        for part, n in ((check_translation, 400 if q else 5000), ",
+               "        from harness import decgen\n        for part, n in ((check_translation, 400 if q else 5000), (decgen.check_decompress, 3000 if q else 60000), ")]):
+        done.append("tools/harness/c01.py")
+    for rel in ("tools/harness/c20.py", "tools/harness/c05.py"):
+        if patch(rel, "decgen.check_decompress",
+                 [("def run(ctx):\n    rep, tier = ctx[\"rep\"], ctx[\"tier\"]\n    rng = random.Random(ctx[\"seed\"])\n",
+                   "def run(ctx):\n    rep, tier = ctx[\"rep\"], ctx[\"tier\"]\n    rng = random.Random(ctx[\"seed\"])\n"
+                   "    from harness import decgen\n    decgen.check_decompress(ctx, rep, random.Random(ctx[\"seed\"] + 7), 500 if tier == \"quick\" else 5000)\n")]):
+            done.append(rel)
+    for rel in ("tools/harness/c01.py", "tools/harness/c20.py", "tools/harness/c05.py"):
+        if add_gen_deps(rel, DEC_DEPS):
+            done.append(rel + " (GEN_DEPS)")
+    return done
+
+
 if __name__ == "__main__":
     print("stage 1:", stage1())
     print("stage 2:", stage2())
@@ -638,3 +759,4 @@ if __name__ == "__main__":
     print("stage 5:", stage5())
     print("stage 4b:", stage4b())
     print("stage 4c:", stage4c())
+    print("stage 7:", stage7())
